@@ -152,7 +152,7 @@ def handle (args : List Sexp) : String :=
   | [.atom "impl", ts, t, p, i] =>
     (match parseDecls ts, t.nat?, p.bool?, i.nat? with
      | some D, some tt, some pp, some ii =>
-       s!"y={b01 (implementsY F D tt (ifaceMethodsY D ii))} g={b01 (implements D ⟨tt, pp⟩ (ifaceMethods D ii))}"
+       s!"y={b01 (implementsY F D tt pp (ifaceMethodsY D ii))} g={b01 (implements D ⟨tt, pp⟩ (ifaceMethods D ii))}"
      | _, _, _, _ => "bad-op")
   | _ => "bad-op"
 
